@@ -478,3 +478,69 @@ func TestVerifC19Reanalysis(t *testing.T) {
 		t.Fail()
 	}
 }
+
+// C10 (and C18's no-duplicate clause): a corpus of small projects, each accepted or rejected as the statement says;
+// on rejection nothing may be written.
+func TestVerifC10AcceptReject(t *testing.T) {
+	entries, _ := os.ReadDir("cases")
+	n := 0
+	failed := false
+	only := os.Getenv("VERIF_PROPERTY") // report only this property's classes (C10 or C18) when set
+	for _, e := range entries {
+		if !e.IsDir() {
+			continue
+		}
+		name := e.Name()
+		exp, _ := os.ReadFile(filepath.Join("cases", name, "expect.txt"))
+		want := strings.TrimSpace(string(exp))
+		n++
+		dir := t.TempDir()
+		r, s, err := genInto(t, dir, func(cfg map[string]any) {
+			cfg["commonConfig"].(map[string]any)["controllerGlobs"] = []any{"./cases/" + name + "/*.go"}
+			if want == "reject-nodefault" {
+				delete(cfg["openapiGeneratorConfig"].(map[string]any), "defaultSecurity")
+			}
+		})
+		accepted := err == nil
+		switch {
+		case only == "C18":
+		case want == "accept" && !accepted:
+			fmt.Printf("VERIF-FAIL: class=C10-wellformed-project-rejected-%s project cases/%s is well linked but was rejected: %v\n", name, name, firstLine(err))
+			failed = true
+		case want != "accept" && accepted:
+			fmt.Printf("VERIF-FAIL: class=C10-illformed-project-accepted-%s project cases/%s violates the linking rules but was accepted\n", name, name)
+			failed = true
+		}
+		if only == "C18" {
+			failed = false // C10 classes above are not this run's concern
+		}
+		if !accepted && (len(r) > 0 || len(s) > 0) && only != "C18" {
+			fmt.Printf("VERIF-FAIL: class=C10-output-written-on-rejection-%s project cases/%s was rejected but artefacts were written\n", name, name)
+			failed = true
+		}
+		if !accepted && want != "accept" && only != "C10" {
+			// C18: no entity is listed twice in the command's error text
+			text := err.Error()
+			for _, line := range strings.Split(text, "\n") {
+				line = strings.TrimSpace(line)
+				if strings.HasPrefix(line, "Receiver ") && strings.Count(text, line) > 1 {
+					fmt.Printf("VERIF-FAIL: class=C18-entity-reported-twice-%s the error text of cases/%s lists %q %d times\n", name, name, line, strings.Count(text, line))
+					failed = true
+					break
+				}
+			}
+		}
+	}
+	fmt.Printf("VERIF-CASES: %d (projects of the accept/reject corpus)\n", n)
+	fmt.Println("VERIF-DONE")
+	if failed {
+		t.Fail()
+	}
+}
+
+func firstLine(err error) string {
+	if err == nil {
+		return ""
+	}
+	return strings.SplitN(err.Error(), "\n", 2)[0]
+}
